@@ -157,6 +157,8 @@ LFOR:
 		switch p.tk.T {
 		case token.BraceRight:
 			break LFOR
+		case token.Eof:
+			p.parseErr("enum " + enum.Name + " is not closed, expect }")
 		case token.Name:
 			k := p.tk.S.S
 			p.next()
